@@ -118,6 +118,9 @@ func (e *Engine) call(fr *frame, st *State, in *ssa.Call) *State {
 			classes = append(classes, 2)
 			continue
 		}
+		if e.CallHook != nil && fr.check {
+			e.CallHook(e, st, in, f)
+		}
 		s := st.Clone()
 		e.bindParams(s, f, args, c.IsInvoke(), c.Value)
 		rets, _ := e.Eval(f, s, fr.check, in)
@@ -805,6 +808,18 @@ func (e *Engine) external(fr *frame, st *State, in *ssa.Call, f *ssa.Function, a
 	name := f.String()
 	e.Externals[name]++
 	need := func(i int, n int64, what string) {
+		if i < len(args) && e.AccessHook != nil && fr.check {
+			// read extent relative to the slice the argument was cut from: low + n
+			if sl, ok := args[i].(*ssa.Slice); ok && sl.High == nil {
+				lo := Const(0)
+				if sl.Low != nil {
+					lo = e.expr(st, sl.Low)
+				}
+				e.AccessHook(e, st, in, sl.X, lo.AddConst(n))
+			} else if _, ok := args[i].(*ssa.Slice); !ok {
+				e.AccessHook(e, st, in, args[i], Const(n))
+			}
+		}
 		if i < len(args) {
 			l := e.lenExpr(st, args[i])
 			e.oblige(fr, "B-BIN", in, what, st.Entails(l.AddConst(-n)), fmt.Sprintf("%s needs len(arg) >= %d, have %s", what, n, e.linStr(st.Subst(l))))
